@@ -96,6 +96,10 @@ def cases(tier, seed):
         for name, h in hs:
             if not any(_mentions(h, key) for key in keys):
                 continue
+            if 'UIntList' in name:
+                # UIntList(List[int]) carries its item hint in the class definition, not in the hint as
+                # written; beartype applies overrides there too (same situation as Counter below)
+                continue
             if 'Counter' in name and int in keys:
                 # Counter[T] carries an implicit `int` value hint that is not an occurrence in the
                 # hint as written; whether an override of int applies to it is not settled by the
